@@ -553,3 +553,8 @@ def run(prop: str, tier: str) -> int:
         return V.finish("model_checking", cov, ASSUME)
     finally:
         shutil.rmtree(tmp, ignore_errors=True)
+
+
+def replay_case(prop, case, tmp):
+    rows, res, bad = judge([{"ast": case["ast"], "debug": case["debug"], "meas": case["meas"]}], tmp, "r")
+    return bad[1][1] if bad else None
